@@ -27,7 +27,7 @@ pub fn run(ctx: &Ctx) -> i32 {
     let prop: &'static str = if ctx.prop == "C13" { "C13" } else { "C17" };
     let engine = ReqEngine { prop };
     if let Some(path) = &ctx.replay {
-        return match read_replay(path).and_then(|rf| if rf.engine == "tlsstack" { crate::props::stack::replay(ctx, "C13", &rf) } else if rf.engine == "tlswire" { replay_one(ctx, &TlsPanics, &rf) } else { replay_one(ctx, &engine, &rf) }) {
+        return match read_replay(path).and_then(|rf| if rf.engine == "tlsstack" { crate::props::stack::replay(ctx, "C13", &rf) } else if rf.engine == "netsim" { replay_one(ctx, &crate::props::net::NetEngine { prop: "C13" }, &rf) } else if rf.engine == "tlswire" { replay_one(ctx, &TlsPanics, &rf) } else { replay_one(ctx, &engine, &rf) }) {
             Ok(c) => c,
             Err(e) => {
                 eprintln!("replay failed: {e}");
@@ -40,6 +40,9 @@ pub fn run(ctx: &Ctx) -> i32 {
     if prop == "C13" {
         // protocol selection through real TLS/ALPN
         total.merge(crate::props::stack::leg(ctx, "C13"));
+        // the whole client against real servers, redirects followed: Host / :authority on every hop
+        let e2e = crate::props::net::NetEngine { prop: "C13" };
+        total.merge(run_generated(ctx, &e2e, "netsim-redirect-hops", || crate::props::net::c13_e2e_strategy(5), ctx.cases(4_000, 200_000), 300));
     }
     if prop == "C17" {
         // TLS transport leg: the tlswire cases, only panics count here
